@@ -290,7 +290,7 @@ pub fn decl_source(t: &mut Toks) -> R<String> {
     if bits != "-" {
         src.push_str(&format!("#[bits({bits})] "));
     }
-    src.push_str("#[repr(u8)] enum E { ");
+    src.push_str("#[repr(u8)] pub enum E { ");
     for _ in 0..n {
         let ident = t.next()?.to_string();
         let disc = t.next()?.to_string();
